@@ -209,7 +209,8 @@ func runC01(tier string, seed uint64) {
 		big = append(big, 5<<20+3)
 	}
 	keys := []string{"plain", "nested/dir/obj.txt", "sp ace+plus", "uni/\xe2\x82\xac\xc3\xbc", "q?uery&amp=1", "pct%41%2F", "semi;colon,comma", strings.Repeat("L", 200) + "/" + strings.Repeat("m", 200),
-		" padded with blanks ", "tab\tand trailing blank "} // white space is part of a key, wherever it stands
+		" padded with blanks ", "tab\tand trailing blank ", // white space is part of a key, wherever it stands
+		strings.Repeat("\xc3\xa9", 115), "m\xc3\xbc/" + strings.Repeat("\xe6\x97\xa5", 80) + "/x"} // segments of 230 and 240 bytes in 115 and 80 characters
 	metas := [][]KV{
 		nil,
 		{{"Content-Type", "application/x-verif"}, {"X-Amz-Meta-One", "1"}},
@@ -337,6 +338,21 @@ func runC01(tier string, seed uint64) {
 				nontrivial(fmt.Sprint(kind, noInt, "twins", gi))
 			}
 			s.h = pathStyle
+			// the same bytes uploaded again under other metadata (PUT, form POST, copy onto itself, Go API; also
+			// an empty body): an upload is its body and its headers, and the later upload is the one served
+			for si, sb := range [][]byte{rng.Bytes(300), {}} {
+				sk := fmt.Sprintf("same-bytes/%d", si)
+				round(sk, sb, metas[1], 0)
+				round(sk, sb, metas[3], 0)
+				round(sk, sb, metas[1], 1)
+				round(sk, sb, metas[3], 4)
+				round(sk, sb, metas[1], 3)
+				round(sk, sb, metas[2], 3)
+				s.CopyWith(b, sk, b, sk, []KV{{"X-Amz-Meta-One", "changed-in-place"}, {"Content-Type", "text/x-in-place"}})
+				s.Get(b, sk, "")
+				s.Head(b, sk, "")
+				round(sk, sb, nil, 0)
+			}
 			s.recycledBucketPut(rng.Bytes(3000))
 			// uploads through the Go API from a buffer that is reused afterwards
 			s.apiPutReusedBuffer(b, "pooled/1", []byte("first use of the pooled buffer"), []byte("SECOND USE OF THE POOLED BUFFER!!"))
